@@ -34,9 +34,12 @@ def scanP (b e : Nat) : Nat → List Tok → Option Nat
     else if spells e t then (match d with | 0 => none | d' + 1 => scanP b e d' ts)
     else scanP b e d ts
 
+/-- a mandatory argument that is one character or one control sequence (`\\foo x`, `\\foo\\alpha`, `\\foo\\ `) is written
+    without braces -/
 def isBare (ts : List Tok) : Bool :=
   match ts with
   | [.ch _] => true
+  | [.cs _ false] => true
   | _ => false
 
 def renderArg (a : ArgCall) : List Tok :=
